@@ -194,6 +194,16 @@ func runC18(c *core.Ctx) {
 		}
 		prevDump := loadDump(prevBytes, hasPrev)
 		newDump := loadDump(newBytes, hasNew)
+		// what a later, clean session that changes the state a little must leave behind, from either legal state
+		// (leftovers of the interrupted save must not leak into it)
+		const followScript = "fz = 1"
+		followOf := func(content string, has bool) (string, bool) {
+			dd := env.prepare(content, has)
+			env.run(dd, followScript, nil, "", nil)
+			return c18ReadGr(dd)
+		}
+		followPrev, hasFollowPrev := followOf(prevBytes, hasPrev)
+		followNew, hasFollowNew := followOf(newBytes, hasNew)
 		hb, _ := os.ReadFile(hooklog)
 		var points []string
 		counts := map[string]int{}
@@ -223,6 +233,18 @@ func runC18(c *core.Ctx) {
 				if o != prevDump && o != newDump {
 					outcome = "reload-neither"
 					report(kind+":reload-neither-previous-nor-new", fmt.Sprintf("%s: next session loads %q", key, trunc(o, 300)), key)
+				}
+			}
+			if okPrev || okNew {
+				fo, fcode, _ := env.run(dirAfter, followScript, nil, "", nil)
+				fgot, fhas := c18ReadGr(dirAfter)
+				want, whas := followPrev, hasFollowPrev
+				if okNew && !okPrev {
+					want, whas = followNew, hasFollowNew
+				}
+				if fcode != 0 || fhas != whas || fgot != want {
+					outcome = "later-save-differs"
+					report(kind+":later-clean-save-differs", fmt.Sprintf("%s: a later clean session (%s) left .gr = %q (exit %d %s), expected %q", key, followScript, trunc(fgot, 200), fcode, trunc(fo, 80), trunc(want, 200)), key)
 				}
 			}
 			if kind == "fail" {
@@ -321,7 +343,7 @@ func init() {
 	core.Register(&core.Check{
 		ID:    "C18",
 		Level: "fault_enumeration",
-		Rule: "for each (previous state, new state) pair a child process chdir's into a fresh scratch directory holding the previous ./.gr, runs the real repl.AutoLoad, evaluates the script producing the new state and calls the real repl.AutoSave; the crash points hit by a clean run are discovered through the build-tag hook log, then one child per crash point is killed with a real SIGKILL at that point (no deferred code, no flush) and one child per binding gets an injected write failure; thorough adds SIGKILL / ENOSPC at every file-syscall boundary via strace fault injection. Oracle: ./.gr afterwards is byte-identical to the previous or to the new file (both known from clean runs) and a second child's AutoLoad restores exactly one of the two states; an injected failure is returned by AutoSave and leaves the previous file untouched; an unchanged state does not rewrite the file. Non-trivial = every (pair, point).",
+		Rule: "for each (previous state, new state) pair a child process chdir's into a fresh scratch directory holding the previous ./.gr, runs the real repl.AutoLoad, evaluates the script producing the new state and calls the real repl.AutoSave; the crash points hit by a clean run are discovered through the build-tag hook log, then one child per crash point is killed with a real SIGKILL at that point (no deferred code, no flush) and one child per binding gets an injected write failure; thorough adds SIGKILL / ENOSPC at every file-syscall boundary via strace fault injection. Oracle: ./.gr afterwards is byte-identical to the previous or to the new file (both known from clean runs) and a second child's AutoLoad restores exactly one of the two states; an injected failure is returned by AutoSave and leaves the previous file untouched; an unchanged state does not rewrite the file; a later clean session started in the same directory (which adds one binding) leaves exactly the file it leaves when started from that legal state in a clean directory (leftovers of the interrupted save do not leak into later saves). Non-trivial = every (pair, point).",
 		Assume:      []string{"process death only (the property does not claim durability across power loss: there is no fsync before the rename)", "leftover .grol*.tmp files are allowed"},
 		QuickCap:    100 * time.Second,
 		ThoroughCap: 20 * time.Minute,
